@@ -156,6 +156,17 @@ DiagMat(ms, oshs, oax, ishs, iax) ==
       LET lo == Locate(oshs, oax, p - 1)  li == Locate(ishs, iax, q - 1) IN
       IF lo[1] = li[1] THEN ms[lo[1]][lo[2] + 1][li[2] + 1] ELSE Zero)
 
+\* linop.FiniteDifference(ishape, axes): documented meaning, row block k is  x - circshift(x, 1, axis k)
+\* (axes None = all axes; otherwise the normalised axes in ascending order)
+FDAxes(e) == IF P(e, 2) = None THEN TLCEval([d \in 1..Len(P(e, 1)) |-> d - 1])
+             ELSE SelectSeq(TLCEval([d \in 1..Len(P(e, 1)) |-> d - 1]), LAMBDA d : d \in AxSet(P(e, 2), Len(P(e, 1))))
+FDMat(e) ==
+  LET ish == P(e, 1)  axs == FDAxes(e)  n == Prod(ish) IN
+  Mat(Len(axs) * n, n, LAMBDA p, q :
+      LET k == ((p - 1) \div n) + 1  j == ((p - 1) % n) + 1
+          cm == CircshiftOut(ish, <<1>>, <<axs[k]>>) IN
+      CSub(IF q = j THEN One ELSE Zero, IF q \in cm[j] THEN One ELSE Zero))
+
 RECURSIVE MProd(_)
 MProdB(ms) == IF Len(ms) = 1 THEN ms[1] ELSE MMul(ms[1], MProd(Tail(ms)))
 MProd(ms) == MProdB(ms)   \* TLC does not cache arguments of RECURSIVE operators; the body operator does
@@ -182,6 +193,7 @@ ShB(e) ==
                              <<A2BShape(SubSeq(P(e, 1), 1, n), LastN(P(e, 1), D), P(e, 2), P(e, 3)), P(e, 1)>>
     [] e.k = "B2A"        -> LET D == Len(P(e, 2))  n == Len(P(e, 1)) - D IN
                              <<P(e, 1), A2BShape(SubSeq(P(e, 1), 1, n), LastN(P(e, 1), D), P(e, 2), P(e, 3))>>
+    [] e.k = "FiniteDifference" -> <<<<Len(FDAxes(e))>> \o P(e, 1), P(e, 1)>>
     [] e.k = "Multiply"   -> <<MulOsh(e), P(e, 1)>>
     [] e.k = "MatMul"     -> <<MatMulOsh(e), P(e, 1)>>
     [] e.k = "RightMatMul" -> <<RMatMulOsh(e), P(e, 1)>>
@@ -213,6 +225,7 @@ MatOfB(e) ==
                              MapMat(A2BOut(SubSeq(P(e, 1), 1, n), LastN(P(e, 1), D), P(e, 2), P(e, 3)), nin)
     [] e.k = "B2A"        -> LET D == Len(P(e, 2))  n == Len(P(e, 1)) - D IN
                              MapMat(B2AOut(SubSeq(P(e, 1), 1, n), LastN(P(e, 1), D), P(e, 2), P(e, 3)), nin)
+    [] e.k = "FiniteDifference" -> FDMat(e)
     [] e.k = "Multiply"   -> MulMat(e)
     [] e.k = "MatMul"     -> MatMulMat(e)
     [] e.k = "RightMatMul" -> RMatMulMat(e)
@@ -258,6 +271,15 @@ ArgSortPerm(s) == TLCEval([i \in 1..Len(s) |-> (CHOOSE d \in 1..Len(s) : s[d] = 
 \* blocks tile the array exactly once / never overlap (conditions of the Identity shortcut for N)
 TilesExactly(N, B, S) == \A d \in 1..Len(N) : S[d] = B[d] /\ N[d] % B[d] = 0
 NoOverlap(B, S) == \A d \in 1..Len(B) : S[d] >= B[d]
+
+\* FiniteDifference is a factory: Vstack over the axes of  Reshape([1] + ishape) * (Identity - Circshift(ishape, [1], [axis]))
+FDExpand(a) ==
+  LET ish == P(a, 1)  axs == FDAxes(a) IN
+  Mk("Vstack", <<<<0>>>>, TLCEval([k \in 1..Len(axs) |->
+       ComposeOf(<<Leaf("Reshape", <<<<1>> \o ish, ish>>),
+                   Mk("Add", <<>>, <<Leaf("Identity", <<ish>>),
+                                     ComposeOf(<<ScalarMul(ish, <<-1, 0>>), Leaf("Circshift", <<ish, <<1>>, <<axs[k]>>>>)>>)>>)>>)]))
+Mech(a) == IF a.k = "FiniteDifference" THEN FDExpand(a) ELSE a
 
 RECURSIVE AdjRule(_)
 AdjRuleB(e) ==
@@ -320,7 +342,7 @@ Step == steps < MaxLevel /\ steps' = steps + 1
 Push ==
   /\ Step /\ "Push" \in Calls /\ Len(stack) < MaxStack
   /\ \E a \in Atoms :
-       /\ stack' = Append(stack, Entry(a, a, MatOf(a)))
+       /\ stack' = Append(stack, Entry(a, Mech(a), MatOf(a)))
        /\ last' = Call("Push", <<>>, 0, "ok")
 
 Dup ==
